@@ -3,6 +3,7 @@ import itertools
 
 import numpy as np
 
+from . import argforms_a as af
 from . import qc
 from .common import bits, f2b, unbits
 from .qc import torch
@@ -27,6 +28,16 @@ RULE = ("case = (n, per-letter dictionary (default X,Y,Z plus user-added random 
         "(model faithful; property-level oracle with the stable signature fast-path/dict-Z-not-identity = proposed known finding, proposed/F_C04_Z_override.md); "
         "1-D states (kind vecstates): outcome classes only (outside the quantifier 'any batch'); "
         "exact tier (Gaussian integers, model over Int, compared exactly) and tolerance tier (default dictionary); "
+        "ARGUMENT FORMS (round 5; one seeded stream per case, key `aseed`; a case without the key replays with Python ints / bool singletons by keyword): "
+        "`include_extras` of rotate_psi_inner_prod / rotate_rho_probs is a flag OBJECT of either truth value (bool singleton, 0/1, numpy bools, 0-d numpy / torch bools), "
+        "by keyword or as the sixth positional argument - a falsy one must give the plain tensor, a truthy one the triple (value, terms, expanded states) whose value is "
+        "checked at property level against the dense product and whose terms must sum to it (auxiliary); `unitaries` and the explicit operand `psi=` / `rho=` of all four "
+        "entry points by keyword, positionally (documented order) or mixed; constructor sizes num_visible / num_hidden / num_aux and `gpu` of every state the harness builds "
+        "(ComplexWaveFunction, PositiveWaveFunction, DensityMatrix, BinaryRBM, PurificationRBM; keyword and positional) as Python int / numpy integer scalars / 0-d numpy / "
+        "0-d torch integers and falsy flag objects, with the oracle 'constructed architecture == requested sizes'; the `space` argument of the model-derived kinds comes from "
+        "`nn_state.generate_hilbert_space(size)` with `size` in the case's integer form (exact oracle against the harness's own enumeration); `expand` of the reference "
+        "`rho(space, space, expand)` as a truthy flag object; the matrices handed to create_dict(**kwargs) as pair tensors, numpy arrays or nested lists (of ints on the exact tier); "
+        "the outcome batch `states` stays a double tensor (every other dtype is refused by the clean code as soon as one site is rotated, see notes/C04.md); "
         "the terms of the fast paths' sums, seen through the PUBLIC include_extras=True outputs with psi = all-ones (term i = coefficient Ut_i, paired with the "
         "expanded state v_i), compared as a SET of (state, coefficient) pairs per sample with the model's enumeration (auxiliary; listing order, the private helper "
         "_rotate_basis_state and the numpy/real-pair representation are NOT constrained: unrecognised output = informational counter, no mismatch); "
@@ -93,18 +104,198 @@ def dense_K(mats):
 class FakeState:
     """minimal nn_state for the explicit-operand paths (unitaries.py only needs these attributes)"""
 
-    def __init__(self, n, udict, has_dict=True):
+    def __init__(self, n, udict, has_dict=True, A=None):
         self.num_visible = n
         self.device = torch.device("cpu")
         if has_dict:  # has_dict=False: a state WITHOUT the attribute (like PositiveWaveFunction)
             self.unitary_dict = udict
-        self._h = qc.PositiveWaveFunction(n, 1, gpu=False)
+        if A is None or A.aseed is None:
+            self._h = qc.PositiveWaveFunction(n, 1, gpu=False)
+        else:  # sizes / gpu in the case's argument forms (round 5); the caller checks `af.sizes_of(st._h) == (n, 1)`
+            self._h = qc.PositiveWaveFunction(A.i(n), A.i(1), A.b(False)) if A.coin() else qc.PositiveWaveFunction(A.i(n), A.i(1), gpu=A.b(False))
 
     def generate_hilbert_space(self, size=None, device=None):
         return self._h.generate_hilbert_space(size=size, device=device)
 
 
-def make_dict(rng, exact):
+# ------------------------------------------------------------------ argument forms (round 5, harness/argforms_a.py)
+MATRIX_FORMS = ("tensor", "numpy", "list")
+# FORM LEFT OUT (clean code, finding candidate proposed/F_C04_create_dict_list_precision.md): nested lists of Python FLOATS.  create_dict converts a
+# non-tensor with `torch.tensor(matrix)`, which infers torch's DEFAULT dtype (float32) for Python floats before the `.to(torch.double)`: the stored
+# unitary is the float32 rounding of the one given (error ~ 1e-8, silently).  Lists of ints (exact tier) and float64 numpy arrays are converted exactly.
+LIST_OF_PY_FLOATS = __import__("os").environ.get("QV_C04_LIST_OF_PY_FLOATS") == "1"   # off; switch on to reproduce the finding / once it is repaired
+
+
+def matrix_form(v, form, ints=False):
+    """the 2x2 complex matrix `v` as an object create_dict(**kwargs) is handed: the library's real-pair double tensor (the only form used before
+    round 5), a numpy array of the same layout, or nested Python lists (of ints when the entries are Gaussian integers: `ints`)"""
+    if form == "tensor":
+        return to_pair_tensor(v)
+    a = np.asarray(v, dtype=complex)
+    pair = np.stack([a.real, a.imag])
+    if ints:
+        pair = np.rint(pair).astype(np.int64)
+    return pair if form == "numpy" else pair.tolist()
+
+
+def create_dict_forms(A, d, ints=False, ctx=None):
+    """unitaries.create_dict(**d) with every matrix in a form drawn from the case's stream (unseeded: pair tensors, as before)"""
+    kw = {}
+    for k, v in d.items():
+        form = "tensor" if A is None else A.choice(MATRIX_FORMS if (ints or LIST_OF_PY_FLOATS) else MATRIX_FORMS[:2])
+        if ctx is not None and A is not None and A.aseed is not None:
+            ctx.count(f"argform/create_dict matrix given as {form}" + (" of ints" if ints and form != "tensor" else ""))
+        kw[k] = matrix_form(v, form, ints)
+    return unitaries.create_dict(**kw)
+
+
+class CaseAbort(Exception):
+    """the case cannot be evaluated further (the reason has been recorded as an oracle failure)"""
+
+
+def case_args(ctx, case):
+    """the case's stream of argument forms (None: Python ints / bool singletons by keyword, as stored before round 5)"""
+    A = af.Args(case.get("aseed"))
+    A.ctx, A.case = ctx, case
+    return A
+
+
+def rot_call(A, f, st, basis, x, td, opname, op, extras=None, desc=None):
+    """ONE call of a rotation entry point in the case's CALL FORM.  `unitaries` and the explicit operand (`psi=` / `rho=`) go by keyword (the only
+    form used before round 5; unseeded stream), positionally in the documented order, or mixed.  `extras`: None for rotate_psi / rotate_rho (no such
+    option); False / True = the truth value of `include_extras`, handed over as a flag OBJECT of the stream by keyword or as the sixth positional
+    argument; a falsy flag is sometimes left at its default (always, when the stream is unseeded)."""
+    args, kw = [st, basis, x], {}
+    style = A.choice(("kw", "pos", "mixed"))
+    if style == "kw":
+        kw["unitaries"] = td
+        kw[opname] = op
+    elif style == "pos":
+        args += [td, op]
+    else:
+        args.append(td)
+        kw[opname] = op
+    fd = None
+    if extras is not None and (extras or (A.aseed is not None and A.coin(0.75))):
+        flag, fd = A.b_desc(extras)
+        if style == "pos" and A.coin(0.5):
+            args.append(flag)
+            fd = dict(fd, pos=True)
+        else:
+            kw["include_extras"] = flag
+            fd = dict(fd, pos=False)
+    form = {"call": style, "include_extras": fd if fd is not None else "default"}
+    if A.aseed is not None and getattr(A, "ctx", None) is not None:
+        A.ctx.count(f"argform/call unitaries + operand: {style}")
+        if extras is not None:
+            A.ctx.count("argform/include_extras " + ("left at its default" if fd is None else ("positional" if fd["pos"] else "by keyword")))
+    if desc is not None:
+        desc.update(form)
+    try:
+        return f(*args, **kw)
+    except TypeError as e:
+        if e.__traceback__.tb_next is not None or getattr(A, "ctx", None) is None:
+            raise  # raised INSIDE the implementation: handled like every other exception of the code under test
+        # raised by the call itself: the documented signature (nn_state, basis, states/space, unitaries=None, psi/rho=None[, include_extras=False])
+        # does not bind these arguments
+        A.ctx.oracle(f"{f.__name__} accepts its documented arguments by keyword and positionally in the documented order", False, A.case,
+                     detail={"given_as": form, "error": str(e)[:200]}, sig=f"{f.__name__}/call-form", theorem=None)
+        raise CaseAbort()
+
+
+def _pair_value(x, shape, real=False):
+    """numpy value of a returned tensor (complex from the real-pair format, or real) if it has the expected shape, else None"""
+    try:
+        if not hasattr(x, "detach"):
+            return None
+        a = x.detach().cpu().numpy()
+        if real:
+            return a.astype(float) if a.shape == tuple(shape) else None
+        return (a[0] + 1j * a[1]) if a.shape == (2,) + tuple(shape) else None
+    except Exception:  # noqa: BLE001
+        return None
+
+
+def fast_value(ctx, A, which, st, basis, states_t, td, op, B, info):
+    """the PLAIN value of a fast path (`which` = "inner": rotate_psi_inner_prod -> complex (B,), "probs": rotate_rho_probs -> real (B,)) called with a FALSY
+    include_extras object (or the default) in the case's call form.  A return value that is not the documented tensor (e.g. the triple, for a falsy
+    object that is not the singleton False) gives a NaN vector - the value oracles / points then fail - and `info["problem"]` says why."""
+    f, opname = (unitaries.rotate_psi_inner_prod, "psi") if which == "inner" else (unitaries.rotate_rho_probs, "rho")
+    out = rot_call(A, f, st, basis, states_t, td, opname, op, extras=False, desc=info)
+    val = _pair_value(out, (B,), real=(which == "probs"))
+    if val is None:
+        info["problem"] = f"a falsy include_extras must give the plain tensor; returned {type(out).__name__}" + \
+            (f" of length {len(out)}" if isinstance(out, (tuple, list)) else f" of shape {list(getattr(out, 'shape', []))}")
+        ctx.count("argform/include_extras falsy: NOT the plain tensor")
+        return np.full(B, np.nan) + (0j if which == "inner" else 0.0)
+    return val
+
+
+def extras_check(ctx, case, A, which, st, basis, states_t, td, op, want, scale, kind, atol_f):
+    """`include_extras=<truthy object>`: the documented return value is the triple (value, terms of the sum, expanded states).  Property level: the VALUE is
+    the dense Kronecker result for the batch whatever object denoted `True`.  Auxiliary: the listed terms sum to the value (inner: over the term axis;
+    probs: real parts over both term axes) - the representation is canonicalised, an unrecognised one is an informational counter."""
+    if A.aseed is None:
+        return
+    f, opname = (unitaries.rotate_psi_inner_prod, "psi") if which == "inner" else (unitaries.rotate_rho_probs, "rho")
+    info = {}
+    out = rot_call(A, f, st, basis, states_t, td, opname, op, extras=True, desc=info)
+    B = len(want)
+    name = "rotate_psi_inner_prod" if which == "inner" else "rotate_rho_probs"
+    th = TH["inner"] if which == "inner" else TH["probs"]
+    triple = isinstance(out, (tuple, list)) and len(out) == 3
+    val = _pair_value(out[0], (B,), real=(which == "probs")) if triple else None
+    ok = val is not None and bool(np.allclose(val, want, rtol=1e-9, atol=atol_f * scale))
+    ctx.oracle(f"{name}(include_extras=<true object>) returns (value, terms, states) and value == " +
+               ("(kron(U) psi)[states]" if which == "inner" else "diag(U rho U^dag)[states]"), ok, case,
+               detail={"given_as": info, "returned": type(out).__name__ + (f"[{len(out)}]" if isinstance(out, (tuple, list)) else ""),
+                       "impl": None if val is None else str(val[:6]), "dense": str(np.asarray(want)[:6])},
+               sig=f"{name}/{kind}/include_extras-true", theorem=th)
+    if not ok:
+        return
+    terms = _canon_cplx(out[1])
+    if terms is None or terms.shape[-1] != B:
+        ctx.count("extras: representation not recognised (informational)")
+        return
+    tot = terms.reshape(-1, B).sum(axis=0)
+    if which == "inner":
+        ctx.point(f"{name}(include_extras): the listed terms sum to the returned value", "aux", np.r_[tot.real, tot.imag], np.r_[val.real, val.imag], case,
+                  scale=scale, sig=f"extras.sum/{kind}", theorem=th, rtol=1e-9, atol=atol_f)
+    else:
+        ctx.point(f"{name}(include_extras): the real parts of the listed terms sum to the returned value", "aux", tot.real, val, case,
+                  scale=scale, sig=f"extras.sum/{kind}", theorem=th, rtol=1e-9, atol=atol_f)
+
+
+def hilbert_space_arg(ctx, case, A, st, n, space_t, kind):
+    """the `space` argument of the model-derived kinds as a caller obtains it: `nn_state.generate_hilbert_space(size)` with `size` in the case's integer
+    form (keyword or positional).  Exact oracle against the harness's own enumeration; None if it differs (the case cannot be evaluated further)."""
+    if A.aseed is None:
+        return space_t
+    (so, sd) = A.i_desc(n)
+    gen = st.generate_hilbert_space(so) if A.coin(0.5) else st.generate_hilbert_space(size=so)
+    ok = bool(hasattr(gen, "shape") and tuple(gen.shape) == tuple(space_t.shape) and gen.dtype == torch.double and torch.equal(gen, space_t))
+    ctx.oracle("generate_hilbert_space(size) (the `space` handed to rotate_psi / rotate_rho) == all 2^n basis states in counting order", ok, case,
+               detail={"size": sd, "shape": list(getattr(gen, "shape", []))}, sig=f"{kind}/hilbert-space-size", theorem="C04_index_convention")
+    return gen if ok else None
+
+
+CTOR_TH = "C04_rotate_psi / C04_rotate_rho / C04_model_probs_physical (stated for the n-site state the caller asked for)"
+
+
+def rho_flag_form(ctx, case, A, st, space_t, rho, kind):
+    """the reference matrix of the model-derived kinds is `nn_state.rho(space, space)`; with `expand` given explicitly as a TRUTHY object of the stream
+    (keyword or third positional argument) the state must return the same full matrix (DensityMatrix.rho: "expand: whether to return a matrix (True)")"""
+    if A.aseed is None:
+        return
+    (fo, fd) = A.b_desc(True)
+    out = st.rho(space_t, space_t, fo) if A.coin(0.5) else st.rho(space_t, space_t, expand=fo)
+    got = _pair_value(out, rho.shape)
+    ctx.oracle("rho(space, space, expand=<true object>) == rho(space, space) (the matrix rotate_rho / rotate_rho_probs rotate)",
+               got is not None and bool(np.allclose(got, rho, rtol=1e-12, atol=0.0)), case,
+               detail={"expand_given_as": fd, "shape": list(getattr(out, "shape", []))}, sig=f"{kind}/rho-expand-flag", theorem=TH["rotate_rho"])
+
+
+def make_dict(rng, exact, A=None, ctx=None):
     """letter -> complex 2x2; returns (numpy dict, torch dict)"""
     if exact:
         d = {L: rand_gint(rng, (2, 2)) for L in "XYABZ"}
@@ -114,7 +305,7 @@ def make_dict(rng, exact):
         d = {k: from_pair_tensor(v) for k, v in base.items()}
         d["A"] = rand_unitary(rng)
         d["B"] = rand_unitary(rng)
-    td = unitaries.create_dict(**{k: to_pair_tensor(v) for k, v in d.items()})
+    td = create_dict_forms(A, d, ints=exact, ctx=ctx)
     return d, td
 
 
@@ -134,7 +325,7 @@ def _canon_cplx(x):
     return None
 
 
-def expand_points(ctx, case, st, basis, td, states, n, us_enc, rot, exact, kind):
+def expand_points(ctx, case, st, basis, td, states, n, us_enc, rot, exact, kind, A=None):
     """auxiliary: the terms of the fast path's sum, observed through the PUBLIC `include_extras=True` outputs of rotate_psi_inner_prod
     ("all the terms of the summation as well as the expanded basis states") with psi = the all-ones vector, so that term i of sample b is the
     coefficient Ut_i itself, paired with the expanded state v_i. Compared with the model's enumeration `Unitaries.rotateBasisState`
@@ -146,7 +337,7 @@ def expand_points(ctx, case, st, basis, td, states, n, us_enc, rot, exact, kind)
     ctx.count(f"rotated_sites={m}")
     try:
         out = unitaries.rotate_psi_inner_prod(st, basis, torch.tensor(states, dtype=torch.double), unitaries=td,
-                                              psi=to_pair_tensor(np.ones(2 ** n)), include_extras=True)
+                                              psi=to_pair_tensor(np.ones(2 ** n)), include_extras=True if A is None else A.b(True))
         terms = _canon_cplx(out[1])
         v = out[2].detach().cpu().numpy() if hasattr(out[2], "detach") else np.asarray(out[2])
     except Exception:  # noqa: BLE001  (the value path is checked elsewhere; this is only the localising view)
@@ -181,6 +372,13 @@ def expand_points(ctx, case, st, basis, td, states, n, us_enc, rot, exact, kind)
 
 # ------------------------------------------------------------------ one case
 def one_case(ctx, case):
+    try:
+        return _one_case(ctx, case)
+    except CaseAbort:
+        return None
+
+
+def _one_case(ctx, case):
     if case.get("kind") == "dictres":
         return dictres_case(ctx, case)
     if case.get("kind") == "zoverride":
@@ -192,7 +390,8 @@ def one_case(ctx, case):
     rng_seed = case["seed"]
     import random as _r
     rng = _r.Random(rng_seed)
-    d, td = make_dict(rng, exact)
+    A = case_args(ctx, case)
+    d, td = make_dict(rng, exact, A, ctx)
     mats = [d[b] for b in basis]
     K = dense_K(mats)
     N = 2 ** n
@@ -207,13 +406,20 @@ def one_case(ctx, case):
         if kind == "psi_model":
             am = qc.rand_rbm_params(rng, n, 2, 0.7)
             ph = qc.rand_rbm_params(rng, n, 2, 1.0)
-            st = qc.make_complex(n, 2, am, ph, unitary_dict=td) if case.get("cplx", True) else qc.make_positive(n, 2, am)
+            st = af.make_complex(A, n, 2, am, ph, unitary_dict=td) if case.get("cplx", True) else af.make_positive(A, n, 2, am)
+            if not af.check_sizes(ctx, st, (n, 2), case, A, f"{kind}/ctor-sizes", CTOR_TH):
+                return
             if not hasattr(st, "unitary_dict"):
                 st.unitary_dict = td
+            space_t = hilbert_space_arg(ctx, case, A, st, n, space_t, kind)
+            if space_t is None:
+                return
             psi = from_pair_tensor(st.psi(space_t))
             psi_arg = None
         else:
-            st = FakeState(n, td)
+            st = FakeState(n, td, A=A)
+            if not af.check_sizes(ctx, st._h, (n, 1), case, A, f"{kind}/ctor-sizes", CTOR_TH):
+                return
             psi = rand_gint(rng, (N,)) if exact else np.array([complex(rng.gauss(0, 1), rng.gauss(0, 1)) for _ in range(N)])
             psi_arg = to_pair_tensor(psi)
         nontriv = any(rot) and bool(np.any(np.abs(psi.imag) > 0))
@@ -223,23 +429,27 @@ def one_case(ctx, case):
         ctx.count("letters=" + "".join(sorted(set(basis))))
         scale = float(np.max(np.abs(K @ psi))) + 1e-300
         # rotate_psi
-        impl = from_pair_tensor(unitaries.rotate_psi(st, basis, space_t, unitaries=td, psi=psi_arg))
+        impl = from_pair_tensor(rot_call(A, unitaries.rotate_psi, st, basis, space_t, td, "psi", psi_arg))
         ok = np.allclose(impl, K @ psi, rtol=1e-9, atol=1e-9 * scale)
         ctx.oracle("rotate_psi == kron(U) psi", bool(ok), case, detail={"impl": str(impl[:8]), "dense": str((K @ psi)[:8])},
                    sig=f"rotate_psi/{kind}", theorem=TH["rotate_psi"])
         # inner prod on a batch with repeats in arbitrary order
         batch = [rng.randrange(N) for _ in range(min(2 * N, 12))] + [0, N - 1]
         states = [space[k] for k in batch]
-        ip = from_pair_tensor(unitaries.rotate_psi_inner_prod(st, basis, torch.tensor(states, dtype=torch.double), unitaries=td, psi=psi_arg))
+        states_t = torch.tensor(states, dtype=torch.double)
+        info = {}
+        ip = fast_value(ctx, A, "inner", st, basis, states_t, td, psi_arg, len(batch), info)
         ok = np.allclose(ip, (K @ psi)[batch], rtol=1e-9, atol=1e-9 * scale)
-        ctx.oracle("rotate_psi_inner_prod == (kron(U) psi)[states]", bool(ok), case, detail={"impl": str(ip[:8]), "dense": str((K @ psi)[batch][:8])},
+        ctx.oracle("rotate_psi_inner_prod == (kron(U) psi)[states]", bool(ok), case,
+                   detail=dict({"impl": str(ip[:8]), "dense": str((K @ psi)[batch][:8])}, **({"given_as": info} if A.aseed is not None else {})),
                    sig=f"rotate_psi_inner_prod/{kind}", theorem=TH["inner"])
-        expand_points(ctx, case, st, basis, td, states, n, us_enc, rot, exact, kind)
+        extras_check(ctx, case, A, "inner", st, basis, states_t, td, psi_arg, (K @ psi)[batch], scale, kind, 1e-9)
+        expand_points(ctx, case, st, basis, td, states, n, us_enc, rot, exact, kind, A)
         if kind == "psi_model":
             p = np.abs(impl) ** 2
             Z = float(st.normalization(space_t))
             ctx.oracle("rotated probs sum to Z (psi)", abs(p.sum() - Z) <= 1e-8 * Z, case, sig="probs-sum/psi", theorem="C04_psi_probs_sum")
-            ipf = from_pair_tensor(unitaries.rotate_psi_inner_prod(st, basis, space_t, unitaries=td, psi=None))
+            ipf = fast_value(ctx, A, "inner", st, basis, space_t, td, None, N, {})
             ctx.oracle("fast path: |rotate_psi_inner_prod(space)|^2 sums to the normalisation (psi from the model)",
                        abs(float((np.abs(ipf) ** 2).sum()) - Z) <= 1e-8 * Z, case, detail={"sum": float((np.abs(ipf) ** 2).sum()), "Z": Z},
                        sig="probs-sum/psi-fast", theorem="C04_model_probs_physical_psi")
@@ -248,13 +458,14 @@ def one_case(ctx, case):
             if hasattr(st, "rbm_ph"):
                 qc.set_rbm(st.rbm_ph, qc.rand_rbm_params(rng, n, 2, 0.9), inplace=True)
             psi2 = from_pair_tensor(st.psi(space_t))
-            again = from_pair_tensor(unitaries.rotate_psi(st, basis, space_t, unitaries=td, psi=None))
+            again = from_pair_tensor(rot_call(A, unitaries.rotate_psi, st, basis, space_t, td, "psi", None))
             bt = torch.tensor(states, dtype=torch.double)
-            ip2 = from_pair_tensor(unitaries.rotate_psi_inner_prod(st, basis, bt, unitaries=td, psi=None))
+            ip2 = fast_value(ctx, A, "inner", st, basis, bt, td, None, len(batch), {})
             sc2 = float(np.max(np.abs(K @ psi2))) + 1e-300
             ctx.oracle("rotate_psi / inner_prod follow the CURRENT parameters on a repeated call with the same objects",
                        bool(np.allclose(again, K @ psi2, rtol=1e-9, atol=1e-9 * sc2) and np.allclose(ip2, (K @ psi2)[batch], rtol=1e-9, atol=1e-9 * sc2)),
                        case, sig=f"history/{kind}", theorem=TH["rotate_psi"])
+        A.count_into(ctx)
         if ctx.driver is not None and not (case.get("big") and n > 9):
             m = ctx.driver.call("c04.rotate_psi" + sfx, n=n, us=us_enc, psi=[cenc(z, exact) for z in psi])
             mv = np.array([cdec(p, exact) for p in m])
@@ -269,11 +480,19 @@ def one_case(ctx, case):
         if kind == "rho_model":
             am = qc.rand_prbm_params(rng, n, 2, 2, 0.7)
             ph = qc.rand_prbm_params(rng, n, 2, 2, 1.0, d_zero=True)
-            st = qc.make_density(n, 2, 2, am, ph, unitary_dict=td)
+            st = af.make_density(A, n, 2, 2, am, ph, unitary_dict=td)
+            if not af.check_sizes(ctx, st, (n, 2, 2), case, A, f"{kind}/ctor-sizes", CTOR_TH):
+                return
+            space_t = hilbert_space_arg(ctx, case, A, st, n, space_t, kind)
+            if space_t is None:
+                return
             rho = from_pair_tensor(st.rho(space_t, space_t))
+            rho_flag_form(ctx, case, A, st, space_t, rho, kind)
             rho_arg = None
         else:
-            st = FakeState(n, td)
+            st = FakeState(n, td, A=A)
+            if not af.check_sizes(ctx, st._h, (n, 1), case, A, f"{kind}/ctor-sizes", CTOR_TH):
+                return
             a = rand_gint(rng, (N, N)) if exact else np.array([[complex(rng.gauss(0, 1), rng.gauss(0, 1)) for _ in range(N)] for _ in range(N)])
             rho = (a + a.conj().T) if herm else a
             if herm and not exact:
@@ -290,7 +509,7 @@ def one_case(ctx, case):
         dense = K @ rho @ K.conj().T
         denseH = K @ rho.conj().T @ K.conj().T
         scale = float(np.max(np.abs(dense))) + 1e-300
-        impl = from_pair_tensor(unitaries.rotate_rho(st, basis, space_t, unitaries=td, rho=rho_arg))
+        impl = from_pair_tensor(rot_call(A, unitaries.rotate_rho, st, basis, space_t, td, "rho", rho_arg))
         if herm:
             if np.any(np.abs(rho.imag) > 0):
                 ctx.count("rho_hermitian_not_real_symmetric(property level)")
@@ -313,28 +532,33 @@ def one_case(ctx, case):
                           np.r_[denseH.real.ravel(), denseH.imag.ravel()], case, scale=scale, rtol=1e-9, atol=1e-8)
         batch = [rng.randrange(N) for _ in range(min(2 * N, 12))] + [0, N - 1]
         states = [space[k] for k in batch]
-        pr = unitaries.rotate_rho_probs(st, basis, torch.tensor(states, dtype=torch.double), unitaries=td, rho=rho_arg).detach().numpy()
+        states_t = torch.tensor(states, dtype=torch.double)
+        info = {}
+        pr = fast_value(ctx, A, "probs", st, basis, states_t, td, rho_arg, len(batch), info)
         want = np.real(np.diag(dense))[batch]
         ok = np.allclose(pr, want, rtol=1e-9, atol=1e-8 * scale)
-        ctx.oracle("rotate_rho_probs == diag(U rho U^dag)[states]", bool(ok), case, detail={"impl": pr[:8].tolist(), "dense": want[:8].tolist()},
+        ctx.oracle("rotate_rho_probs == diag(U rho U^dag)[states]", bool(ok), case,
+                   detail=dict({"impl": pr[:8].tolist(), "dense": want[:8].tolist()}, **({"given_as": info} if A.aseed is not None else {})),
                    sig=f"rotate_rho_probs/{kind}", theorem=TH["probs"])
-        expand_points(ctx, case, st, basis, td, states, n, us_enc, rot, exact, kind)
+        extras_check(ctx, case, A, "probs", st, basis, states_t, td, rho_arg, want, scale, kind, 1e-8)
+        expand_points(ctx, case, st, basis, td, states, n, us_enc, rot, exact, kind, A)
         if kind == "rho_model":
             Z = float(st.normalization(space_t))
-            full = unitaries.rotate_rho_probs(st, basis, space_t, unitaries=td).detach().numpy()
+            full = fast_value(ctx, A, "probs", st, basis, space_t, td, None, N, {})
             # history (see psi_model)
             qc.set_prbm(st.rbm_am, qc.rand_prbm_params(rng, n, 2, 2, 0.8), inplace=True)
             qc.set_prbm(st.rbm_ph, qc.rand_prbm_params(rng, n, 2, 2, 0.8, d_zero=True), inplace=True)
             rho2 = from_pair_tensor(st.rho(space_t, space_t))
             d2 = K @ rho2 @ K.conj().T
-            rr2 = from_pair_tensor(unitaries.rotate_rho(st, basis, space_t, unitaries=td))
-            pr2 = unitaries.rotate_rho_probs(st, basis, space_t, unitaries=td).detach().numpy()
+            rr2 = from_pair_tensor(rot_call(A, unitaries.rotate_rho, st, basis, space_t, td, "rho", None))
+            pr2 = fast_value(ctx, A, "probs", st, basis, space_t, td, None, N, {})
             sc2 = float(np.max(np.abs(d2))) + 1e-300
             ctx.oracle("rotate_rho / rho_probs follow the CURRENT parameters on a repeated call with the same objects",
                        bool(np.allclose(rr2, d2, rtol=1e-9, atol=1e-8 * sc2) and np.allclose(pr2, np.real(np.diag(d2)), rtol=1e-9, atol=1e-8 * sc2)),
                        case, sig=f"history/{kind}", theorem=TH["rotate_rho"])
             ctx.oracle("rotated probs >= 0 and sum to Z (rho)", bool(np.all(full >= -1e-9 * Z) and abs(full.sum() - Z) <= 1e-8 * Z), case,
                        detail={"probs": full.tolist(), "Z": Z}, sig="probs-physical/rho", theorem="C04_model_probs_physical (C04_rho_probs_nonneg, C04_rho_probs_sum, C02_posSemidef, C02_trace)")
+        A.count_into(ctx)
         if ctx.driver is not None and not case.get("big"):
             rho_enc = [[cenc(z, exact) for z in row] for row in rho]
             if (n <= 3 or ctx.tier == "thorough") and (herm or not np.allclose(impl, dense, rtol=1e-9, atol=1e-8 * scale) or np.allclose(dense, denseH)):
@@ -348,11 +572,15 @@ def one_case(ctx, case):
                       **({"rtol": 0, "atol": 0} if exact else {}))
 
 
-def dict_case(ctx):
+def dict_case(ctx, aseed=None):
     """default dictionary: implementation vs model vs the eigenvector characterisation"""
     base = unitaries.create_dict()
     d = {k: from_pair_tensor(v) for k, v in base.items()}
     case = {"kind": "dict"}
+    A = af.Args(aseed)
+    if aseed is not None:
+        case["aseed"] = aseed
+    ctx.current_case = case
     ctx.case(case, nontrivial=True)
     sx = np.array([[0, 1], [1, 0]], dtype=complex)
     sy = np.array([[0, -1j], [1j, 0]])
@@ -367,10 +595,15 @@ def dict_case(ctx):
     for k in d1:
         d1[k].mul_(-3.0)
     d2 = unitaries.create_dict()
-    st_a = qc.ComplexWaveFunction(1, 1, gpu=False)
+    st_a = qc.ComplexWaveFunction(A.i(1), A.i(1), gpu=A.b(False))
     st_a.unitary_dict["X"].add_(1.0)
-    st_b = qc.ComplexWaveFunction(1, 1, gpu=False)
-    st_c = qc.DensityMatrix(1, 1, 1, gpu=False)
+    st_b = qc.ComplexWaveFunction(A.i(1), A.i(1), None, A.b(False)) if A.coin() else qc.ComplexWaveFunction(A.i(1), A.i(1), gpu=A.b(False))
+    st_c = qc.DensityMatrix(A.i(1), A.i(1), A.i(1), None, A.b(False)) if A.coin() else qc.DensityMatrix(A.i(1), A.i(1), A.i(1), gpu=A.b(False))
+    if aseed is not None:
+        sz = [af.sizes_of(st_a), af.sizes_of(st_b), af.sizes_of(st_c)]
+        ctx.oracle("constructed architecture == requested sizes (default-dictionary states)", sz == [(1, 1), (1, 1), (1, 1, 1)], case,
+                   detail={"constructed": [None if x is None else list(x) for x in sz], "given_as": A.used()}, sig="dict/ctor-sizes", theorem=CTOR_TH)
+        A.count_into(ctx)
     fresh_ok = all(np.array_equal(from_pair_tensor(d2[k]), d[k]) for k in "XYZ") and \
         all(np.array_equal(from_pair_tensor(s_.unitary_dict[k]), d[k]) for s_ in (st_b, st_c) for k in "XYZ")
     ctx.oracle("create_dict() / default state dictionaries are fresh (unaffected by in-place edits of earlier ones)", bool(fresh_ok), case,
@@ -397,12 +630,14 @@ def _dict_enc(d):
     return None if d is None else [[k, m2enc(v, False)] for k, v in d.items()]
 
 
-def _tdict(d, through_api=True):
-    """numpy dictionary -> torch dictionary; through create_dict (which adds/overrides the defaults) or as a plain dict"""
+def _tdict(d, through_api=True, A=None, ctx=None):
+    """numpy dictionary -> torch dictionary; through create_dict (which adds/overrides the defaults; matrices in the forms of the stream `A`) or as
+    a plain dict of pair tensors (`unitaries=` is documented as dict(str, torch.Tensor))"""
     if d is None:
         return None
-    pairs = {k: to_pair_tensor(v) for k, v in d.items()}
-    return unitaries.create_dict(**pairs) if through_api else pairs
+    if through_api:
+        return create_dict_forms(A, d, ctx=ctx)
+    return {k: to_pair_tensor(v) for k, v in d.items()}
 
 
 def _snapshot(td):
@@ -455,6 +690,7 @@ def dictres_case(ctx, case):
     (Unitaries.unitariesOf / siteUs / rotatePsiD / rotateRhoD / rotatePsiInnerProdD / rotateRhoProbsD)."""
     ctx.current_case = case
     rng = _import_random().Random(case["seed"])
+    A = case_args(ctx, case)
     n, basis, state, gk, ok_ = case["n"], case["basis"], case["state"], case["given"], case["own"]
     N = 2 ** n
     r2 = 1.0 / np.sqrt(2.0)   # the default dictionary written out (independent of create_dict): rows = the +1, -1 eigen-bras of sigma_x / sigma_y
@@ -476,18 +712,21 @@ def dictres_case(ctx, case):
             del given_np["Z"]
     # the rule, re-stated: the one given (a non-empty dictionary), else the state's own, else the default
     res = given_np if given_np else (own_np if own_np is not None else default)
-    td_own = None if own_np is None or ok_ == "default" else _tdict(own_np)
-    td_given = _tdict(given_np, through_api=(gk != "explicit_noZ")) if given_np else given_np
+    td_own = None if own_np is None or ok_ == "default" else _tdict(own_np, A=A, ctx=ctx)
+    td_given = _tdict(given_np, through_api=(gk != "explicit_noZ"), A=A, ctx=ctx) if given_np else given_np
     space = qc.all_states(n)
     space_t = torch.tensor(space, dtype=torch.double)
     if state == "complex":
-        st = qc.make_complex(n, 2, qc.rand_rbm_params(rng, n, 2, 0.7), qc.rand_rbm_params(rng, n, 2, 1.0), unitary_dict=td_own)
+        st = af.make_complex(A, n, 2, qc.rand_rbm_params(rng, n, 2, 0.7), qc.rand_rbm_params(rng, n, 2, 1.0), unitary_dict=td_own)
     elif state == "positive":
-        st = qc.make_positive(n, 2, qc.rand_rbm_params(rng, n, 2, 0.7))
+        st = af.make_positive(A, n, 2, qc.rand_rbm_params(rng, n, 2, 0.7))
     elif state == "density":
-        st = qc.make_density(n, 2, 2, qc.rand_prbm_params(rng, n, 2, 2, 0.7), qc.rand_prbm_params(rng, n, 2, 2, 1.0, d_zero=True), unitary_dict=td_own)
+        st = af.make_density(A, n, 2, 2, qc.rand_prbm_params(rng, n, 2, 2, 0.7), qc.rand_prbm_params(rng, n, 2, 2, 1.0, d_zero=True), unitary_dict=td_own)
     else:
-        st = FakeState(n, td_own if td_own is not None else unitaries.create_dict(), has_dict=(state == "fake"))
+        st = FakeState(n, td_own if td_own is not None else unitaries.create_dict(), has_dict=(state == "fake"), A=A)
+    if not af.check_sizes(ctx, getattr(st, "_h", st), {"density": (n, 2, 2), "complex": (n, 2), "positive": (n, 2)}.get(state, (n, 1)), case, A,
+                          f"dictres/{state}/ctor-sizes", CTOR_TH):
+        return
     has_own = hasattr(st, "unitary_dict")
     assert has_own == (own_np is not None), "harness: state / own-dictionary mismatch"
     do_psi = state in ("complex", "positive", "fake", "fake_nodict")
@@ -533,10 +772,10 @@ def dictres_case(ctx, case):
             psi_arg = None
         sc = float(np.max(np.abs(psi))) * 2 ** (n / 2) + 1e-300
         psi_enc = [cenc(z, False) for z in psi]
-        run_pair("rotate_psi", "property", lambda: from_pair_tensor(unitaries.rotate_psi(st, basis, space_t, unitaries=td_given, psi=psi_arg)),
+        run_pair("rotate_psi", "property", lambda: from_pair_tensor(rot_call(A, unitaries.rotate_psi, st, basis, space_t, td_given, "psi", psi_arg)),
                  lambda: K @ psi, "c04.rotate_psi_dict", {"psi": psi_enc}, _dec_vec, "C04_unitaries_of, C04_rotate_psi_dict", letters_ok, sc)
         run_pair("rotate_psi_inner_prod", "property",
-                 lambda: from_pair_tensor(unitaries.rotate_psi_inner_prod(st, basis, states_t, unitaries=td_given, psi=psi_arg)),
+                 lambda: from_pair_tensor(rot_call(A, unitaries.rotate_psi_inner_prod, st, basis, states_t, td_given, "psi", psi_arg, extras=False)),
                  lambda: (K @ psi)[batch], "c04.inner_prod_dict", {"psi": psi_enc, "states": states}, _dec_vec,
                  "C04_unitaries_of, C04_inner_prod_dict", letters_ok, sc)
         if rot_ok and not letters_ok:  # dictionary without a Z key: the fast path never looks Z up
@@ -555,15 +794,16 @@ def dictres_case(ctx, case):
             rho_arg = None
         sc = float(np.max(np.abs(rho))) * N + 1e-300
         rho_enc = [[cenc(z, False) for z in row] for row in rho]
-        run_pair("rotate_rho", "property", lambda: from_pair_tensor(unitaries.rotate_rho(st, basis, space_t, unitaries=td_given, rho=rho_arg)),
+        run_pair("rotate_rho", "property", lambda: from_pair_tensor(rot_call(A, unitaries.rotate_rho, st, basis, space_t, td_given, "rho", rho_arg)),
                  lambda: K @ rho @ K.conj().T, "c04.rotate_rho_dict", {"rho": rho_enc}, _dec_mat, "C04_unitaries_of, C04_rotate_rho_dict", letters_ok, sc)
         run_pair("rotate_rho_probs", "property",
-                 lambda: unitaries.rotate_rho_probs(st, basis, states_t, unitaries=td_given, rho=rho_arg).detach().numpy() + 0j,
+                 lambda: rot_call(A, unitaries.rotate_rho_probs, st, basis, states_t, td_given, "rho", rho_arg, extras=False).detach().numpy() + 0j,
                  lambda: np.real(np.diag(K @ rho @ K.conj().T))[batch], "c04.rho_probs_dict", {"rho": rho_enc, "states": states}, _dec_real,
                  "C04_unitaries_of, C04_rho_probs_dict", letters_ok, sc)
     ctx.oracle("the given dictionary and the state's own dictionary are left untouched by the rotation helpers",
                bool(_same_dict(td_given, snap_given) and _same_dict(getattr(st, "unitary_dict", None), snap_own)), case,
                sig="dictres/dict-mutated", theorem="C04_unitaries_of")
+    A.count_into(ctx)
 
 
 # ------------------------------------------------------------------ audit round: a dictionary whose Z entry is not the identity (FINDING, proposed/F_C04_Z_override.md)
@@ -574,6 +814,7 @@ def zoverride_case(ctx, case):
     (C04_inner_prod_enum with fastK; C04_fast_paths_ignore_unrotated; witness C04_Z_override_fast_ne_dense)."""
     ctx.current_case = case
     rng = _import_random().Random(case["seed"])
+    A = case_args(ctx, case)
     n, basis, exact, state = case["n"], case["basis"], case["exact"], case["state"]
     N = 2 ** n
     if exact:
@@ -584,7 +825,7 @@ def zoverride_case(ctx, case):
         d = {k: from_pair_tensor(v) for k, v in unitaries.create_dict().items()}
         d["A"] = rand_unitary(rng)
         d["Z"] = np.array([[1, 1], [1, -1]], dtype=complex) / np.sqrt(2) if case.get("hadamard") else rand_unitary(rng)
-    td = unitaries.create_dict(**{k: to_pair_tensor(v) for k, v in d.items()})  # through the public API
+    td = create_dict_forms(A, d, ints=exact, ctx=ctx)  # through the public API
     space = qc.all_states(n)
     space_t = torch.tensor(space, dtype=torch.double)
     K = dense_K([d[b] for b in basis])
@@ -601,17 +842,21 @@ def zoverride_case(ctx, case):
     tol = {"rtol": 0, "atol": 0} if exact else {}
     if state in ("fake", "complex"):
         if state == "complex":
-            st = qc.make_complex(n, 2, qc.rand_rbm_params(rng, n, 2, 0.7), qc.rand_rbm_params(rng, n, 2, 1.0), unitary_dict=td)
+            st = af.make_complex(A, n, 2, qc.rand_rbm_params(rng, n, 2, 0.7), qc.rand_rbm_params(rng, n, 2, 1.0), unitary_dict=td)
+            if not af.check_sizes(ctx, st, (n, 2), case, A, "zoverride/ctor-sizes", CTOR_TH):
+                return
             psi, psi_arg, given = from_pair_tensor(st.psi(space_t)), None, None  # the state's own dictionary
         else:
-            st = FakeState(n, unitaries.create_dict())
+            st = FakeState(n, unitaries.create_dict(), A=A)
+            if not af.check_sizes(ctx, st._h, (n, 1), case, A, "zoverride/ctor-sizes", CTOR_TH):
+                return
             psi = rand_gint(rng, (N,)) if exact else np.array([complex(rng.gauss(0, 1), rng.gauss(0, 1)) for _ in range(N)])
             psi_arg, given = to_pair_tensor(psi), td
         sc = float(np.max(np.abs(K @ psi))) + float(np.max(np.abs(psi))) + 1e-300
-        impl = from_pair_tensor(unitaries.rotate_psi(st, basis, space_t, unitaries=given, psi=psi_arg))
+        impl = from_pair_tensor(rot_call(A, unitaries.rotate_psi, st, basis, space_t, given, "psi", psi_arg))
         ctx.oracle("rotate_psi == kron(U) psi with a non-identity Z entry", bool(np.allclose(impl, K @ psi, rtol=1e-9, atol=1e-9 * sc)), case,
                    detail={"impl": str(impl[:6]), "dense": str((K @ psi)[:6])}, sig="zoverride/rotate_psi", theorem=TH["rotate_psi"])
-        ip = from_pair_tensor(unitaries.rotate_psi_inner_prod(st, basis, states_t, unitaries=given, psi=psi_arg))
+        ip = fast_value(ctx, A, "inner", st, basis, states_t, given, psi_arg, len(batch), {})
         ctx.oracle("rotate_psi_inner_prod == (kron(U) psi)[states] for a dictionary whose Z entry is not the identity",
                    bool(np.allclose(ip, (K @ psi)[batch], rtol=1e-9, atol=1e-9 * sc)), case,
                    detail={"impl": str(ip[:6]), "dense": str((K @ psi)[batch][:6]), "Z": str(d["Z"].tolist())}, sig=FINDING_Z,
@@ -629,20 +874,24 @@ def zoverride_case(ctx, case):
                       scale=sc, theorem="C04_inner_prod_enum, C04_fast_paths_ignore_unrotated", sig="zoverride/inner-model", **tol)
     else:
         if state == "density":
-            st = qc.make_density(n, 2, 2, qc.rand_prbm_params(rng, n, 2, 2, 0.7), qc.rand_prbm_params(rng, n, 2, 2, 1.0, d_zero=True), unitary_dict=td)
+            st = af.make_density(A, n, 2, 2, qc.rand_prbm_params(rng, n, 2, 2, 0.7), qc.rand_prbm_params(rng, n, 2, 2, 1.0, d_zero=True), unitary_dict=td)
+            if not af.check_sizes(ctx, st, (n, 2, 2), case, A, "zoverride/ctor-sizes", CTOR_TH):
+                return
             rho, rho_arg, given = from_pair_tensor(st.rho(space_t, space_t)), None, None
         else:
-            st = FakeState(n, unitaries.create_dict())
+            st = FakeState(n, unitaries.create_dict(), A=A)
+            if not af.check_sizes(ctx, st._h, (n, 1), case, A, "zoverride/ctor-sizes", CTOR_TH):
+                return
             a = rand_gint(rng, (N, N)) if exact else np.array([[complex(rng.gauss(0, 1), rng.gauss(0, 1)) for _ in range(N)] for _ in range(N)])
             rho = (a + a.conj().T) if exact else a @ a.conj().T
             rho_arg, given = to_pair_tensor(rho), td
         dense = K @ rho @ K.conj().T
         fast = Kf @ rho @ Kf.conj().T
         sc = float(np.max(np.abs(dense))) + float(np.max(np.abs(fast))) + 1e-300
-        impl = from_pair_tensor(unitaries.rotate_rho(st, basis, space_t, unitaries=given, rho=rho_arg))
+        impl = from_pair_tensor(rot_call(A, unitaries.rotate_rho, st, basis, space_t, given, "rho", rho_arg))
         ctx.oracle("rotate_rho == U rho U^dag with a non-identity Z entry", bool(np.allclose(impl, dense, rtol=1e-9, atol=1e-8 * sc)), case,
                    detail={"impl": str(impl[0, :4]), "dense": str(dense[0, :4])}, sig="zoverride/rotate_rho", theorem=TH["rotate_rho"])
-        pr = unitaries.rotate_rho_probs(st, basis, states_t, unitaries=given, rho=rho_arg).detach().numpy()
+        pr = fast_value(ctx, A, "probs", st, basis, states_t, given, rho_arg, len(batch), {})
         want = np.real(np.diag(dense))[batch]
         ctx.oracle("rotate_rho_probs == diag(U rho U^dag)[states] for a dictionary whose Z entry is not the identity",
                    bool(np.allclose(pr, want, rtol=1e-9, atol=1e-8 * sc)), case,
@@ -662,6 +911,7 @@ def zoverride_case(ctx, case):
 def vecstates_case(ctx, case):
     ctx.current_case = case
     rng = _import_random().Random(case["seed"])
+    A = case_args(ctx, case)
     n, basis, probs, explicit = case["n"], case["basis"], case["probs"], case["explicit"]
     N = 2 ** n
     space = qc.all_states(n)
@@ -671,12 +921,16 @@ def vecstates_case(ctx, case):
     ctx.case({kk: case[kk] for kk in ("n", "basis", "probs", "explicit", "seed")}, nontrivial=False)
     ctx.count("kind=vecstates(1-D states, outcome class)")
     if probs:
-        st = qc.make_density(n, 2, 2, qc.rand_prbm_params(rng, n, 2, 2, 0.7), qc.rand_prbm_params(rng, n, 2, 2, 1.0, d_zero=True))
+        st = af.make_density(A, n, 2, 2, qc.rand_prbm_params(rng, n, 2, 2, 0.7), qc.rand_prbm_params(rng, n, 2, 2, 1.0, d_zero=True))
+        if not af.check_sizes(ctx, st, (n, 2, 2), case, A, "vecstates/ctor-sizes", CTOR_TH):
+            return
         op = st.rho(space_t, space_t)
         impl = _outcome(lambda: unitaries.rotate_rho_probs(st, basis, v1, rho=op if explicit else None).detach().numpy())
         ref = None
     else:
-        st = qc.make_complex(n, 2, qc.rand_rbm_params(rng, n, 2, 0.7), qc.rand_rbm_params(rng, n, 2, 1.0))
+        st = af.make_complex(A, n, 2, qc.rand_rbm_params(rng, n, 2, 0.7), qc.rand_rbm_params(rng, n, 2, 1.0))
+        if not af.check_sizes(ctx, st, (n, 2), case, A, "vecstates/ctor-sizes", CTOR_TH):
+            return
         op = st.psi(space_t)
         impl = _outcome(lambda: from_pair_tensor(unitaries.rotate_psi_inner_prod(st, basis, v1, psi=op if explicit else None)))
         ref = from_pair_tensor(op)[k]
@@ -760,22 +1014,29 @@ def gen_cases(ctx, thorough):
             yield {"n": n, "basis": basis, "exact": False, "kind": "psi_model", "seed": ctx.rng.randrange(1 << 30)}
 
 
+def _with_forms(ctx, cases):
+    """every generated case gets its own seeded stream of argument forms (key `aseed`, harness/argforms_a.py)"""
+    for case in cases:
+        case["aseed"] = af.draw_aseed(ctx.rng)
+        yield case
+
+
 def run(ctx):
     ctx.rule = RULE
-    dict_case(ctx)
-    for case in gen_cases(ctx, ctx.tier == "thorough"):
+    dict_case(ctx, af.draw_aseed(ctx.rng))
+    for case in _with_forms(ctx, gen_cases(ctx, ctx.tier == "thorough")):
         one_case(ctx, case)
-    for case in gen_audit_cases(ctx, ctx.tier == "thorough"):
+    for case in _with_forms(ctx, gen_audit_cases(ctx, ctx.tier == "thorough")):
         one_case(ctx, case)
 
 
 def search(ctx):
     drv, ctx.driver = ctx.driver, None
     try:
-        dict_case(ctx)
-        for case in gen_cases(ctx, True):
+        dict_case(ctx, af.draw_aseed(ctx.rng))
+        for case in _with_forms(ctx, gen_cases(ctx, True)):
             one_case(ctx, case)
-        for case in gen_audit_cases(ctx, True):
+        for case in _with_forms(ctx, gen_audit_cases(ctx, True)):
             one_case(ctx, case)
     finally:
         ctx.driver = drv
@@ -783,6 +1044,6 @@ def search(ctx):
 
 def replay(ctx, case):
     if case.get("kind") == "dict":
-        dict_case(ctx)
+        dict_case(ctx, case.get("aseed"))
     else:
         one_case(ctx, case)
